@@ -24,24 +24,38 @@ Inductive ncase :=
 | KNumNew (s : text) (r : option (Z * Z))
   (* operators.Equal on a number and a text *)
 | KNumTextEq (m e : Z) (s : text) (op_equal : bool)
+  (* ToXText of the number is an error value (render size) *)
+| KNumTextErr (m e : Z)
+  (* operators.Equal on two numbers is an error value (render size of an operand) *)
+| KNumEqErr (m1 e1 m2 e2 : Z)
+  (* types.MaxRenderSize as the driver reads it from the code *)
+| KRenderLimit (n : Z)
   (* XNumber.MarshalJSON gave js; XNumber.UnmarshalJSON of it gave back *)
 | KNumStored (m e : Z) (js : text) (back : option (Z * Z))
-  (* XNumber.UnmarshalJSON on an arbitrary number token *)
-| KNumUnmarshal (s : text) (r : option (Z * Z))
-  (* the same for tokens of thousands of digits: the coefficient is compared modulo 1000000007 (a numeral of
-     thousands of digits in a cases file costs more to read than the case costs to evaluate) *)
+  (* XNumber.UnmarshalJSON on a valid JSON number token (the driver filters: encoding/json refuses "+1" or ".5" before
+     the conversion sees them); the coefficient is compared modulo 1000000007 (a numeral of thousands of digits in a
+     cases file costs more to read than the case costs to evaluate) *)
 | KNumUnmarshalBig (s : text) (r : option (Z * Z)).
 
 Definition ncheck (k : ncase) : bool :=
   match k with
-  | KNum m e txt back => text_eqb (render (Dec m e)) txt && opt_dec_same (parse_number txt) back
+  | KNum m e txt back =>
+      match to_text_num (Dec m e) with
+      | Some t => text_eqb t txt && opt_dec_same (parse_number txt) back
+      | None => false
+      end
   | KNumParse s r => opt_dec_same (parse_number s) r
   | KNumEq m1 e1 m2 e2 o d =>
-      Bool.eqb (equal_num (Dec m1 e1) (Dec m2 e2)) o && Bool.eqb (dec_eqb (Dec m1 e1) (Dec m2 e2)) d
+      match equal_op_num (Dec m1 e1) (Dec m2 e2) with
+      | Some r => Bool.eqb r o && Bool.eqb (dec_eqb (Dec m1 e1) (Dec m2 e2)) d
+      | None => false
+      end
   | KNumNew s r => opt_dec_same (new_from_string s) r
-  | KNumTextEq m e s o => Bool.eqb (equal_num_text (Dec m e) s) o
+  | KNumTextEq m e s o => match equal_op_num_text (Dec m e) s with Some r => Bool.eqb r o | None => false end
+  | KNumTextErr m e => match to_text_num (Dec m e) with None => true | Some _ => false end
+  | KNumEqErr m1 e1 m2 e2 => match equal_op_num (Dec m1 e1) (Dec m2 e2) with None => true | Some _ => false end
+  | KRenderLimit n => (max_render_size_num =? n)%Z && (JsonText.max_render_size =? n)%Z
   | KNumStored m e js back => text_eqb (num_marshal (Dec m e)) js && opt_dec_same (num_unmarshal js) back
-  | KNumUnmarshal s r => opt_dec_same (num_unmarshal s) r
   | KNumUnmarshalBig s r =>
       match num_unmarshal s, r with
       | None, None => true
@@ -137,12 +151,13 @@ Definition dmismatches (ks : list dcase) : list N := mismatches_from dcheck 0%N 
 (* ------------------------------------------------------------------------------------------------ *)
 (* JSON: the tree of the input document, and the tree of what json(parse_json(doc)) wrote (None = error value) *)
 
-Inductive jcase := KJson (doc : json) (out : option json).
+(* [dc]: the charge per nesting level of the render size, as measured on the code by the driver *)
+Inductive jcase := KJson (dc : Z) (doc : json) (out : option json).
 
 Definition jcheck (k : jcase) : bool :=
   match k with
-  | KJson doc out =>
-      match json_roundtrip doc, out with
+  | KJson dc doc out =>
+      match json_roundtrip dc doc, out with
       | Some a, Some b => json_eqb a b
       | None, None => true
       | _, _ => false
